@@ -28,4 +28,19 @@ TEXT = {
                   'all table/cache subscripts use that one variable; arguments are forwarded unchanged; the mapping is selected by a None test '
                   'and is the wrapper\'s only store.',
          'note': COMMON_NOTE + '== / hash of user values, third-party mapping behaviour.'},
+ 'C02': {'ref': '4.B C02', 'technique': 'static analysis: affine abstract interpretation of counter/lock depth over all CFG paths, who-may-write rule, flag folding over sibling overrides, call-site result-use rule',
+         'level': 'acquire() is interpreted abstractly on every path: success is reported only with the thread lock held one level deeper and the descriptor set; '
+                  'the descriptor attribute has exactly three writers and is set only after a successful OS lock on a descriptor opened in the same activation; '
+                  'every concrete _lock is folded over block in {True, False} and must be exclusive flock / msvcrt.locking; release order and the use of acquire()\'s result at every call site are checked.',
+         'note': COMMON_NOTE + 'the kernel\'s flock semantics (trusted), NFS emulation, free-running multi-process contention.'},
+ 'C12': {'ref': '4.B C12', 'technique': 'static analysis: path-sensitive affine interpretation (a*c+b over the entry depth c) with case splits, sign-domain evaluation of the argument normalisation, path rules under an OSError fault model',
+         'level': 'For every path through acquire/release (helpers inlined, loops checked for a fixpoint, range(<linear>) loops multiplied out) the exit state must satisfy '
+                  'counter - depth = 0 with the method-specific deltas; the OS release is reached only for c == 1 or force; unheld release has no effect node; '
+                  'descriptor open/close pairing follows OSError edges; the 8-row normalisation table of (blocking, timeout) is evaluated abstractly; '
+                  'non-blocking and timed shapes of the poll loop are path rules.',
+         'note': COMMON_NOTE + 'elapsed time; release by a non-owner thread (outside the contract). Precondition assumed: counter == depth held by the caller.'},
+ 'C13': {'ref': '4.B C13', 'technique': 'static analysis: effect rule (forbidden-call scan with positive control), constant folding of the open mode, primitive classification',
+         'level': 'A crash-point quantifier is covered by a no-persistent-state argument: filelock.py contains no unlink/rename/pid-file/exists/atexit/signal machinery '
+                  '(positive control must match on every run), the open mode has O_CREAT and not O_EXCL, and exclusion is established only by flock / msvcrt.locking on a process-owned descriptor.',
+         'note': COMMON_NOTE + 'that the kernel releases the lock promptly on SIGKILL (trusted).'},
 }
